@@ -6,7 +6,7 @@ from mc import h_c27 as h
 PROPERTY = "C27"
 LEVEL = "model_checking"
 META = {
-    "text": "From a 6-bus net with an index-referenced and a name-referenced group, every sequence of up to 3 (thorough: 4 on the quick alphabet, 3 on the full one) bound group operations (create_group, attach_to_group(s), detach_from_group(s), drop_group, set_group_reference_column, set_group_in/out_of_service), element drops (drop_elements / drop_buses / drop_lines of members and non-members, with cascades) and reindex_elements / reindex_buses is run on the real net and mirrored on a set model {group: {type: set(index)}}; after every operation group_element_index, count_group_elements, isin_group, the raw net.group rows, the in_service flags and group_res_p_mw / group_res_q_mvar are compared with the model for every group and element type {bus, line, load, trafo3w}; exhaustive within that bound.",
+    "text": "From a 6-bus net with an index-referenced and a name-referenced group, every sequence of up to 3 operations from a 27-op alphabet (thorough: 3 from the full 46-op alphabet and 4 from a 16-op core alphabet) of bound group operations (create_group, attach_to_group(s), detach_from_group(s), drop_group, set_group_reference_column, set_group_in/out_of_service), element drops (drop_elements / drop_buses / drop_lines of members and non-members, with cascades) and reindex_elements / reindex_buses is run on the real net and mirrored on a set model {group: {type: set(index)}}; after every operation group_element_index, count_group_elements, isin_group, the raw net.group rows, the in_service flags and group_res_p_mw / group_res_q_mvar are compared with the model for every group and element type {bus, line, load, trafo3w}; exhaustive within that bound.",
     "note": "Trusted: the set model in mc/h_c27.py (union / difference / image under the reindex lookup; elements that vanished are read from the element tables). Result functions are judged only on fresh results of a converged runpp (re-run after every structural operation). Operations that raise are outcomes, the state after them is neither judged nor expanded. Members/lookup values outside the bound alphabet are not covered.",
     "technique": "explicit-state breadth-first search over operation histories on the real net with a set-model refinement check after every transition",
     "design_ref": "DESIGN.md §3 E2, §4 C27",
@@ -36,7 +36,7 @@ class Model:
         return list(s["viol"])
 
 
-BOUNDS = {"quick": [("quick", 3)], "thorough": [("quick", 4), ("thorough", 3)]}
+BOUNDS = {"quick": [("quick", 3)], "thorough": [("thorough", 3), ("core", 4)]}
 
 
 def explore(tier, seed):
